@@ -2,9 +2,11 @@
 Model of the Describe filters (`/repo/field_filter.go`) on Go strings (= byte sequences),
 faithful to the slicing code: `utf8.RuneCountInString` for the "too short" test, byte
 slicing `in[0:n]` / `in[len(in)-n:]` through checked primitives that yield `panic` exactly
-when the Go runtime would. Track filters follow `newTrackData` → `Track{1,2,3}.unpack`
-(regular expression + `strings.TrimSpace` + `time.Parse("0601")`) → `PANFilter` on the
-account number → `Track{1,2,3}.pack`.
+when the Go runtime would. Track filters follow `newTrackData(in, &track)` =
+`track.SetBytes([]byte(in))` = `Track{1,2,3}.unpack` (regular expression + `strings.TrimSpace`
++ `time.Parse("0601")`) → `PANFilter` on the account number → `Track{1,2,3}.pack`. They are
+pure functions of the text that is about to be printed: a text the track grammar rejects is
+returned unchanged, the field's spec plays no role.
 
 The constants (how many characters stay visible, the mask text, which field id gets which
 filter) come from `Gen/Filters.lean`, regenerated from the source on every run. Core-only.
@@ -107,16 +109,6 @@ def eqSign : Byte := 61
 
 def ddOK (dd : Bytes) : Bool := !dd.isEmpty && dd.all (fun c => c != Q)
 
-/-- outcome of `data.Pack()` followed by the track's `Unpack` inside `newTrackData` -/
-inductive Repack where
-  /-- `data.Pack()` failed: the track stays empty, no error -/
-  | packFailed
-  /-- the track's unpacker rejected the packed bytes: `ErrCreatingNewTrackData`, the filter returns its input -/
-  | unpackFailed
-  /-- the value the track's unpacker hands to `unpack` -/
-  | value (v : Bytes)
-deriving Repr, DecidableEq
-
 /-- result of `Track.unpack`: the components, or failure -/
 structure T2 where
   pan : Bytes
@@ -150,21 +142,13 @@ def formatTrack2 (t : T2) : Bytes :=
   let sep := if t.sep.isEmpty then [eqSign] else t.sep
   t.pan ++ sep ++ expired ++ code ++ t.dd
 
-def emptyT2 : T2 := { pan := [], sep := [], exp := none, code := [], dd := [] }
-
-/-- `Track2Filter(in, data)` -/
-def track2Filter (pan : Bytes → Res Bytes) (rp : Repack) (inp : Bytes) : Res Bytes :=
-  let go (t : T2) : Res Bytes := do
+/-- `Track2Filter(in, data)`: `data` is not used any more -/
+def track2Filter (pan : Bytes → Res Bytes) (inp : Bytes) : Res Bytes :=
+  match parseTrack2 inp with
+  | none => .ok inp            -- `ErrCreatingNewTrackData`: the filter returns its input
+  | some t => do
     let p ← pan t.pan
     pure (formatTrack2 { t with pan := p })
-  match rp with
-  | .unpackFailed => .ok inp
-  | .packFailed => go emptyT2
-  | .value v =>
-    if v.isEmpty then go emptyT2 else
-    match parseTrack2 v with
-    | none => .ok inp
-    | some t => go t
 
 structure T1 where
   fc : Bytes
@@ -223,20 +207,12 @@ def formatTrack1 (t : T1) : Bytes :=
   let code := if t.code.isEmpty then [caret] else t.code
   t.fc ++ t.pan ++ [caret] ++ t.name ++ [caret] ++ expired ++ code ++ t.dd
 
-def emptyT1 : T1 := { fc := [], pan := [], name := [], exp := none, code := [], dd := [] }
-
-def track1Filter (pan : Bytes → Res Bytes) (rp : Repack) (inp : Bytes) : Res Bytes :=
-  let go (t : T1) : Res Bytes := do
+def track1Filter (pan : Bytes → Res Bytes) (inp : Bytes) : Res Bytes :=
+  match parseTrack1 inp with
+  | none => .ok inp            -- `ErrCreatingNewTrackData`: the filter returns its input
+  | some t => do
     let p ← pan t.pan
     pure (formatTrack1 { t with pan := p })
-  match rp with
-  | .unpackFailed => .ok inp
-  | .packFailed => go emptyT1
-  | .value v =>
-    if v.isEmpty then go emptyT1 else
-    match parseTrack1 v with
-    | none => .ok inp
-    | some t => go t
 
 structure T3 where
   fc : Bytes
@@ -258,20 +234,12 @@ def parseTrack3 (raw : Bytes) : Option T3 :=
 
 def formatTrack3 (t : T3) : Bytes := t.fc ++ t.pan ++ [eqSign] ++ t.dd
 
-def emptyT3 : T3 := { fc := [], pan := [], dd := [] }
-
-def track3Filter (pan : Bytes → Res Bytes) (rp : Repack) (inp : Bytes) : Res Bytes :=
-  let go (t : T3) : Res Bytes := do
+def track3Filter (pan : Bytes → Res Bytes) (inp : Bytes) : Res Bytes :=
+  match parseTrack3 inp with
+  | none => .ok inp            -- `ErrCreatingNewTrackData`: the filter returns its input
+  | some t => do
     let p ← pan t.pan
     pure (formatTrack3 { t with pan := p })
-  match rp with
-  | .unpackFailed => .ok inp
-  | .packFailed => go emptyT3
-  | .value v =>
-    if v.isEmpty then go emptyT3 else
-    match parseTrack3 v with
-    | none => .ok inp
-    | some t => go t
 
 /-! ## the filters with the constants of the source -/
 
@@ -281,16 +249,16 @@ def panFilter : Bytes → Res Bytes := maskFilter Gen.panFistIndex Gen.panLastIn
 def pinFilter : Bytes → Res Bytes := maskFilter Gen.pinFirstIndex Gen.pinLastIndex (bytesOf Gen.pinPattern)
 def emvFilter : Bytes → Res Bytes := maskFilter Gen.emvFirstIndex Gen.emvLastIndex (bytesOf Gen.emvPattern)
 
-/-- filter function by its Go name; `rp` is what `newTrackData` sees (ignored by the mask filters) -/
-def filterByName (name : String) (rp : Repack) (inp : Bytes) : Option (Res Bytes) :=
+/-- filter function by its Go name -/
+def filterByName (name : String) (inp : Bytes) : Option (Res Bytes) :=
   match name with
   | "PANFilter" => some (panFilter inp)
   | "PINFilter" => some (pinFilter inp)
   | "EMVFilter" => some (emvFilter inp)
   | "NoOpFilter" => some (.ok inp)
-  | "Track1Filter" => some (track1Filter panFilter rp inp)
-  | "Track2Filter" => some (track2Filter panFilter rp inp)
-  | "Track3Filter" => some (track3Filter panFilter rp inp)
+  | "Track1Filter" => some (track1Filter panFilter inp)
+  | "Track2Filter" => some (track2Filter panFilter inp)
+  | "Track3Filter" => some (track3Filter panFilter inp)
   | _ => none
 
 /-- the filter `Describe` applies to field `id` with `DefaultFilters()` (none = printed unfiltered) -/
